@@ -91,6 +91,7 @@ probes! {
     neg_twice => "probe.neg_applied_twice",
     neg_then_acc => "probe.neg_followed_by_accumulate",
     neg_of_zero => "probe.neg_of_zero",
+    neg_of_nar => "probe.neg_of_nar_quire_stays_nar",
     load_minpos => "probe.load_pm_minpos",
     load_maxpos => "probe.load_pm_maxpos",
     load_nar => "probe.load_nar",
